@@ -81,6 +81,19 @@ def ctor_cases(seed, tier):
             for rt in rates:
                 lines.append("%d %d rate:%s" % (ig, qs, rt))
                 lines.append("%d %d core:2 rate:%s max:3" % (ig, qs, rt))
+    # the int -> int32 boundary of initGo (the constructor stores int32(initGo)); queueSize small; constructor ONLY -
+    # such a pool is never started (2^31-1 workers)
+    big = [2**31 - 2, 2**31 - 1, 2**31, 2**31 + 1, 2**32 - 1, 2**32, 2**32 + 1, 2**32 + 5, 2**33, 3 * 2**32 + 2, 2**62,
+           2**63 - 1, -2**31, -2**31 - 1, -2**32, -2**32 + 1, -2**63]
+    for ig in big:
+        for qs in [0, 1, 2]:
+            lines.append("%d %d" % (ig, qs))
+        lines.append("%d 1 rate:1/2" % ig)
+        lines.append("%d 1 core:3" % ig)
+        lines.append("%d 1 max:4" % ig)
+        lines.append("%d 1 core:2 max:5" % ig)
+        lines.append("%d 1 core:%d" % (ig, 2**31 - 1))
+        lines.append("%d 1 max:%d" % (ig, 2**31 - 1))
     r = random.Random(seed * 31 + 7)
     for _ in range(300 if tier == "quick" else 5000):
         opts = []
@@ -159,6 +172,22 @@ def run(c, binary, labels, tier, focus):
         c._distinct.add("pool:%s:%d" % (focus, i))
     if tot["mismatches"] or mism_all:
         broken.append("lockstep")
+    # a mismatch on the timer-duration observation is a concrete failing input by itself: the schedule arms a worker's idle
+    # timer and time.NewTimer is given another duration than the configured one (WithMaxIdleTime(d), or 10 s by default)
+    idle_hit = False
+    for mm in mism_all:
+        g = re.search(r"params: (.*)\n(?:.|\n)*CALL 92 timerdur (\d+)\n\s*expected: 92 ret (\S+)\s*\n\s*observed: 92 ret (\S+)", mm)
+        if g and g.group(3) != g.group(4):
+            idle_hit = True
+            pr = g.group(1).split()
+            conf = "WithMaxIdleTime(%s ns)" % pr[12] if len(pr) > 12 and pr[12] != "0" else "no WithMaxIdleTime option (defaultMaxIdleTime = 10 s)"
+            c.report("%s:pool:idle-time" % c.pid,
+                     "OnDemandBlockTaskPool: pool built with %s; worker %s's idle timer is armed with time.NewTimer(%s ns) instead of %s ns "
+                     "(the configured idle time is not what the workers wait)" % (conf, g.group(2), g.group(4), g.group(3)),
+                     {"kind": "lockstep-schedule", "schedule": mm[-4000:],
+                      "how": "modelrun pool-lockstep replay <file with PARAMS + the events> <report> | h lockstep; observation `CALL 92 timerdur <tid>` "
+                             "returns the duration the worker's latest time.NewTimer was given"})
+            break
     required = ["worker-exits-by-idle-timer", "above-core-exit", "submit-creates-worker", "two-submitters-race-for-locked",
                 "shutdownnow-drains", "task-panics", "last-worker-transition-via-closed-queue"]
     cov["tags_missing"] = [t for t in required if not alltags.get(t)]
@@ -176,6 +205,23 @@ def run(c, binary, labels, tier, focus):
     for l, m in zip(lines, model):
         c.note_case("poolctor:" + l, len(l.split()) >= 3 and m != "err")
     c.cov["traces_validated_against_impl"] += len(lines) - len(bad)
+    # a constructed pool must have at least one worker and exactly the initGo that was asked for
+    rng_bad = []
+    for i, l in enumerate(lines):
+        n = impl_n[i] if i < len(impl_n) else None
+        if isinstance(n, tuple) and (n[1] < 1 or n[1] != int(l.split()[0])):
+            rng_bad.append(i)
+    cov["constructor"]["initgo_boundary_cases"] = sum(1 for l in lines if abs(int(l.split()[0])) >= 2**31 - 2)
+    rng_bad.sort(key=lambda i: (impl_n[i][1] != 0, i))      # the zero-worker pool first
+    for i in rng_bad[:1]:
+        c.report("%s:ctor:initgo-range" % c.pid,
+                 "NewOnDemandBlockTaskPool(%s) is accepted and yields a pool with initGo=%d (the int argument is truncated to int32): "
+                 "invalid constructor arguments are not rejected; with 0 workers Start spawns nobody, Submit returns nil and the task "
+                 "never runs (model pool_new_now: %s; theorems pool_new_now_rejects_out_of_range / pool_new_now_valid do not transfer)" % (
+                     lines[i], impl_n[i][1], model[i] if i < len(model) else None),
+                 {"kind": "constructor-case", "case": lines[i], "implementation": impl[i], "model": model[i] if i < len(model) else None,
+                  "how": "echo '<case>' | h c11-pool-ctor   (format: <initGo> <queueSize> [core:n] [max:n] [rate:a/b])"})
+    bad = [i for i in bad if i not in set(rng_bad)]
     for i in bad[:2]:
         c.report("%s:pool:ctor" % c.pid,
                  "NewOnDemandBlockTaskPool(%s): implementation %r, model pool_new %r (theorem constructor_rejects does not transfer)" % (
@@ -186,7 +232,14 @@ def run(c, binary, labels, tier, focus):
     rounds = 300 if tier == "quick" else 6000
     hits = []
     out, err = _stress(c, binary, c.seed, rounds, focus)
-    cov["stress"] = {"rounds": rounds, "result": out[:200]}
+    cov["stress"] = {"rounds": rounds, "result": out[:300]}
+    m = re.search(r"states_consumers=(\d+) states_samples=(\d+) states_poolstate_locked=(\d+)", out)
+    if m:
+        n, k = int(m.group(2)), int(m.group(3))
+        cov["states"] = {"consumers": int(m.group(1)), "samples": n, "samples_reporting_transient_locked_state_5": k,
+                         "ratio": round(k / n, 3) if n else None,
+                         "observation": "States reports the raw state word, so the transient spin-lock value 5 (stateLocked) is visible "
+                                        "to consumers under Submit load (getState does not use internalState); recorded, not a violation"}
     if not out.startswith("ok"):
         hits.append((c.seed, rounds, out, err))
     for (s, n, out, err) in hits[:2]:
@@ -197,7 +250,7 @@ def run(c, binary, labels, tier, focus):
     # ---- 5. the correspondence is broken and the monitors found nothing: try the concrete schedules of the known
     #         defects against the PINNED models (a full agreement = the old behaviour is back, with its replay)
     found = False
-    if broken and not hits:
+    if broken and not hits and not idle_hit:
         for path, what in [(os.path.join(VERIF, "corpus", "pinned_pool_c10_workers_vanish.txt"),
                             "all workers leave a RUNNING pool (above-core exit + idle-timer exits) while accepted tasks are queued: "
                             "totalGo=0, state running, tasks never executed"),
@@ -216,6 +269,8 @@ def run(c, binary, labels, tier, focus):
                          "OnDemandBlockTaskPool: " + what,
                          {"kind": "lockstep-replay", "file": os.path.relpath(path, VERIF), "events": open(path).read().splitlines(),
                           "how": "modelrun pool-lockstep replay <file> <report> | h lockstep   (see checks/common.py Check.lockstep)"})
+    if idle_hit and set(broken) <= {"lockstep", "skeleton"}:
+        found = True        # the duration mismatch is the concrete input; no further search
     if broken and not hits and not found:
         # long search before giving up
         for s in range(1, 7):
